@@ -173,7 +173,7 @@ def make_sequence(k, three=False, small=False, bare=False):
                                                rotational_frequency=1, neutral_point=-20e-3 * k), gap=2e-3 * k),
             Transport(label="I => II", duration=1),
             RollPass(label="Round II", roll=Roll(groove=RoundGroove(r1=1e-3 * k, r2=12.5e-3 * k, depth=11.5e-3 * k), nominal_radius=160e-3 * k,
-                                                 rotational_frequency=1), gap=2e-3 * k),
+                                                 rotational_frequency=1), gap=2e-3 * k, disk_element_count=3),
         ])
         ip = Profile.round(diameter=30e-3 * k, temperature=1473.15, material=["C45", "steel"], length=1 * k, density=7.5e3 / k ** 2)
         if bare:
@@ -220,6 +220,10 @@ def collect(seq):
         out[f"u{i}.out"] = numeric_hooks(u.out_profile)
         if hasattr(u, 'roll'):
             out[f"u{i}.roll"] = numeric_hooks(u.roll)
+        for j, d in enumerate(getattr(u, 'disk_elements', None) or []):
+            out[f"u{i}.disk{j}"] = numeric_hooks(d)
+            out[f"u{i}.disk{j}.in"] = numeric_hooks(d.in_profile)
+            out[f"u{i}.disk{j}.out"] = numeric_hooks(d.out_profile)
     out["seq"] = numeric_hooks(seq)
     return out
 
